@@ -126,6 +126,7 @@ func TestC13(t *testing.T) {
 				sp.BothDefs = b("bothdefs")
 			}
 			sp.UpperRefPrefix = b("upperprefix")
+			sp.PointerOther = b("pointerother")
 			sp.TypeAsList = b("typeaslist")
 			sp.AnyAsTrue = b("anyastrue")
 			sp.LegacyDeps = b("legacydeps")
@@ -135,6 +136,13 @@ func TestC13(t *testing.T) {
 				sp.YAMLBareKeys = b("barekeys")
 			}
 			return sp, format, names
+		}
+		if len(f.Defs) > 0 && rapid.IntRange(0, 7).Draw(rt, "library") == 0 {
+			// a "library" document: an identifier and a definitions container, nothing else.
+			// Whatever the tool does with it, it must do it for every spelling.
+			f.Root, f.Title, f.Deps = nil, "", nil
+			cfg.Mappings = nil
+			c.Count("pair.library_document")
 		}
 		spA, fmtA, namesA := draw("a.")
 		spB, fmtB, namesB := draw("b.")
